@@ -325,6 +325,8 @@ def _free_scenarios(K6):
          "maxCostOps": False, "ttls": [], "costs": [1] * 30 + [25], "costByKey": True, "ample": False, "sleep": False, "pattern": "bigitem", "yield": False},
         {"name": "pressure", "cfg": _hc(K6, MaxCost=1000, BufCap=64, D=1, CostFn=1), "goroutines": 1, "opsPer": 1, "clear": False,
          "maxCostOps": False, "ttls": [1], "costs": [0], "ample": True, "sleep": False, "pattern": "pressure", "yield": False},
+        {"name": "slowwait", "cfg": _hc(K6, MaxCost=1000, BufCap=64, D=5, CostFn=1), "goroutines": 1, "opsPer": 1, "clear": False,
+         "maxCostOps": False, "ttls": [], "costs": [0], "ample": True, "sleep": False, "pattern": "slowwait", "yield": False},
         {"name": "expireswap", "cfg": _hc([1, 2], "CollHash", "CollConf", MaxCost=1000, BufCap=64, D=5), "goroutines": 9, "opsPer": 16,
          "clear": False, "maxCostOps": False, "ttls": [1], "costs": [1], "ample": True, "sleep": True, "pattern": "expireswap", "yield": True, "park": True, "repeat": 2},
         {"name": "sweeprace", "cfg": _hc([1, 2, 3], MaxCost=100000, BufCap=64, D=1), "goroutines": 6, "opsPer": 150, "clear": False,
